@@ -1033,12 +1033,13 @@ def build_unit(name: str, variant: Optional[str] = None, canary: bool = False) -
   if variant:
     # a variant overrides / adds contracts on top of the base set
     over = parse_contracts(os.path.join(d, cfile))
-    if not over: raise Undecided('unit %s: variant %s has no contracts' % (name, variant))
+    if not over and not cfg.get('generate'): raise Undecided('unit %s: variant %s has no contracts' % (name, variant))
     contracts.update(over)
   gen_prelude = ''
   if cfg.get('generate'):
     # contracts (and model structs) generated mechanically from the real struct definitions on every run
-    g = cfg['generate'](REPO)
+    import inspect as _inspect
+    g = cfg['generate'](REPO, variant) if len(_inspect.signature(cfg['generate']).parameters) >= 2 else cfg['generate'](REPO)
     gdir = os.path.join(BUILD, 'vx', name + ('' if not variant else '.' + variant)); os.makedirs(gdir, exist_ok=True)
     gpath = os.path.join(gdir, 'generated.contracts.vrs')
     with open(gpath, 'w', encoding='utf-8') as f: f.write(g['contracts'])
